@@ -8,12 +8,12 @@ cells are converted by int() on the token text."""
 import ast
 
 from .. import AnalysisError
-from ..astutil import src, call_name, dotted, walk_local, try_fold, ancestors, path_conditions
+from ..astutil import clone, src, call_name, dotted, walk_local, try_fold, ancestors, path_conditions
 from ..fn import expand
 from ..normal import canon_expr, canon_test
 from ..fn import FA
 from .. import rx
-from .yannylib import YANNY, YannyClass
+from .yannylib import YANNY, YannyClass, row_dispatch_tests
 
 META = {
     'property': 'C01',
@@ -138,7 +138,7 @@ def protected(e, fa, depth=0, trusted=frozenset()):
     return False
 
 
-def convert_model(f, fa):
+def convert_model(f, fa, cls=None):
     """How convert() turns tokens into numbers: [(type words, 'int' | 'float', elementwise?, converter applied to the token itself?, node)].
     Two spellings are read: membership tests on literal sets of type words guarding int()/float() calls, and a literal table from type
     words to the builtins int / float whose entry is called."""
@@ -157,39 +157,66 @@ def convert_model(f, fa):
                                 isinstance(arg, ast.Name) and len(c.args) == 1 and not c.keywords, c, n))
     if out:
         return out
-    # (B) table = {'short': int, ..., 'double': float};  table[typ](x)
-    tables = []
-    for n in walk_local(f.node):
-        if isinstance(n, ast.Dict) and n.keys and all(isinstance(k, ast.Constant) and isinstance(k.value, str) for k in n.keys) \
-                and all(isinstance(v, ast.Name) and v.id in ('int', 'float') for v in n.values):
-            tables.append(n)
+    # (B) table = {'short': int, ..., 'double': float};  table[typ](x)   -- the table a local or a class attribute, an entry fetched by
+    #     subscript under a membership test or by .get() under a None test
+    def conv_table(n):
+        return isinstance(n, ast.Dict) and n.keys and all(isinstance(k, ast.Constant) and isinstance(k.value, str) for k in n.keys) \
+            and all(isinstance(v, ast.Name) and v.id in ('int', 'float') for v in n.values)
+    tables = [(n, getattr(n, '_parent', None)) for n in walk_local(f.node) if conv_table(n)]
+    refs = []
+    if cls is not None:
+        for st in cls.body:
+            if isinstance(st, ast.Assign) and len(st.targets) == 1 and isinstance(st.targets[0], ast.Name) and conv_table(st.value):
+                used = [x for x in walk_local(f.node) if isinstance(x, ast.Attribute) and x.attr == st.targets[0].id and isinstance(x.value, ast.Name)
+                        and x.value.id in ('self', 'cls', cls.name)]
+                if used:
+                    tables.append((st.value, st))
+                    refs = [st.targets[0].id]
     if len(tables) != 1:
         return out
-    tab = tables[0]
-    par = getattr(tab, '_parent', None)
+    tab, par = tables[0]
     tname = par.targets[0].id if isinstance(par, ast.Assign) and len(par.targets) == 1 and isinstance(par.targets[0], ast.Name) else None
 
-    def is_entry(e, depth=0):
-        """e evaluates to table[<type word of the column>]."""
-        if isinstance(e, ast.Subscript) and ((tname and isinstance(e.value, ast.Name) and e.value.id == tname) or e.value is tab):
+    def is_table(e):
+        if e is tab:
             return True
+        if refs:
+            return isinstance(e, ast.Attribute) and e.attr in refs and isinstance(e.value, ast.Name)
+        return bool(tname) and isinstance(e, ast.Name) and e.id == tname
+
+    def entry_kind(e, depth=0):
+        """'sub' when e evaluates to table[<type word>], 'get' when to table.get(<type word>) (None for other words), else None."""
+        if isinstance(e, ast.Subscript) and is_table(e.value):
+            return 'sub'
+        if isinstance(e, ast.Call) and isinstance(e.func, ast.Attribute) and e.func.attr == 'get' and is_table(e.func.value) \
+                and (len(e.args) == 1 or (len(e.args) == 2 and isinstance(e.args[1], ast.Constant) and e.args[1].value is None)) and not e.keywords:
+            return 'get'
         if isinstance(e, ast.Name) and depth < 3:
-            vs = [v for d, v in fa.defs(e)]
-            return bool(vs) and all(v is not None and is_entry(v, depth + 1) for v in vs)
-        return False
+            ks = {entry_kind(v, depth + 1) if v is not None else None for d, v in fa.defs(e)}
+            return ks.pop() if len(ks) == 1 else None
+        return None
     for c in walk_local(f.node):
-        if isinstance(c, ast.Call) and is_entry(c.func):
-            # the table must be consulted only for its own keys
-            guarded = any(pol and isinstance(t_, ast.Compare) and len(t_.ops) == 1 and isinstance(t_.ops[0], ast.In) and tname
-                          and isinstance(t_.comparators[0], ast.Name) and t_.comparators[0].id == tname for t_, pol in
-                          [(canon_test(t0) if pol0 else canon_test(ast.UnaryOp(op=ast.Not(), operand=t0)), True) for t0, pol0 in path_conditions(c)])
-            if not guarded:
-                raise AnalysisError('C01: convert() calls an entry of its converter table without a membership test: not an idiom this checker can judge')
-            arg = c.args[0] if c.args else None
-            for conv in ('int', 'float'):
-                s_ = {k.value for k, v in zip(tab.keys, tab.values) if v.id == conv}
-                out.append((s_, conv, any(isinstance(a, (ast.ListComp, ast.GeneratorExp)) for a in ancestors(c)),
-                            isinstance(arg, ast.Name) and len(c.args) == 1 and not c.keywords, c, tab))
+        kind_ = entry_kind(c.func) if isinstance(c, ast.Call) else None
+        if kind_ is None:
+            continue
+        guarded = False
+        for t0, pol0 in path_conditions(c):
+            t_ = canon_test(t0 if pol0 else ast.UnaryOp(op=ast.Not(), operand=clone(t0)))
+            if kind_ == 'sub' and isinstance(t_, ast.Compare) and len(t_.ops) == 1 and isinstance(t_.ops[0], ast.In) and is_table(t_.comparators[0]):
+                guarded = True
+            if kind_ == 'get' and isinstance(c.func, ast.Name):
+                if isinstance(t_, ast.Compare) and len(t_.ops) == 1 and isinstance(t_.ops[0], ast.IsNot) and isinstance(t_.left, ast.Name) \
+                        and t_.left.id == c.func.id and isinstance(t_.comparators[0], ast.Constant) and t_.comparators[0].value is None:
+                    guarded = True
+                if isinstance(t_, ast.Name) and t_.id == c.func.id:
+                    guarded = True
+        if not guarded:
+            raise AnalysisError('C01: convert() calls an entry of its converter table without a membership / None test: not an idiom this checker can judge')
+        arg = c.args[0] if c.args else None
+        for conv in ('int', 'float'):
+            s_ = {k.value for k, v in zip(tab.keys, tab.values) if v.id == conv}
+            out.append((s_, conv, any(isinstance(a, (ast.ListComp, ast.GeneratorExp)) for a in ancestors(c)),
+                        isinstance(arg, ast.Name) and len(c.args) == 1 and not c.keywords, c, c))
     return out
 
 
@@ -220,7 +247,7 @@ def check_typemap(ctx, yc):
     ints = floats = None
     inode = fnode = None
     fa_c = FA(f_c)
-    for s_, conv, elementwise, direct, cnode, anchor in convert_model(f_c, fa_c):
+    for s_, conv, elementwise, direct, cnode, anchor in convert_model(f_c, fa_c, yc.cls):
         if conv == 'int':
             ints, inode = (ints or set()) | s_, anchor
         else:
@@ -569,8 +596,7 @@ def check_case(ctx, repo, yc):
     # _parse: dispatch key
     f = yc.method('_parse')
     fa = FA(f)
-    disp = [c for c in walk_local(f.node) if isinstance(c, ast.Compare) and len(c.ops) == 1 and isinstance(c.ops[0], ast.In)
-            and src(c.comparators[0]) == 'self._symbols' and isinstance(getattr(c, '_parent', None), ast.If)]
+    disp = [c for c in row_dispatch_tests(f) if src(c.comparators[0]) == 'self._symbols']
     ctx.need(disp, '_parse: row dispatch test `<key> in self._symbols` not found')
     for c in disp:
         ctx.check('C01.CASE', upper_derived(c.left, fa), f, c, '_parse dispatches a data row on the upper-cased first word (%s)' % src(c.left),
@@ -581,7 +607,7 @@ def check_intconv(ctx, yc):
     f = yc.method('convert')
     fa = FA(f)
     count = 0
-    for s_, kind, elementwise, direct, elt, anchor in convert_model(f, fa):
+    for s_, kind, elementwise, direct, elt, anchor in convert_model(f, fa, yc.cls):
         count += 1
         ctx.check('C01.INTCONV', direct, f, elt,
                   'convert(): %s cells are converted by %s(<token>) directly%s' % ('integer' if kind == 'int' else 'float', kind, ' (element by element)' if elementwise else ''),
